@@ -1059,6 +1059,10 @@ class Engine:
         if isinstance(it, VConst) and isinstance(it.value, tuple) and it.value[0] == "range":
             return self.run_for_range(st, p, *it.value[1:])
         ls = self.loop_spec(st)
+        self._enum = False
+        if isinstance(it, VConst) and isinstance(it.value, tuple) and it.value[0] == "enumerate":
+            it = it.value[1]
+            self._enum = True
         seq, ecn = self.iter_seq(p, it)
         if isinstance(it, VIter) and it.is_none is not None and not z3.is_false(it.is_none):
             # iterating None raises TypeError
@@ -1078,6 +1082,8 @@ class Engine:
             raise Unsupported("loop target " + ast.unparse(tgt))
 
     def _run_for(self, st, p: Path, it, ls: LoopSpec, seq, ecn):
+        enum = getattr(self, "_enum", False)
+        self._enum = False
         entry_st = p.st.copy()
         entry_env = dict(p.env)
         entry_out = p.out
@@ -1116,7 +1122,11 @@ class Engine:
             ev = self.elem_value(x, ecn, it)
             if ecn and not (isinstance(it, VIter) and getattr(it, "elem_nullable", False)):
                 pass
-            self.bind_target(st.target, ev, q)
+            if enum:
+                ev = VPyTuple([VInt(T.Len(pre)), ev])      # enumerate: the index is the length of the processed prefix
+            for (q1, c1) in self.assign(st.target, ev, q):
+                if c1 is not None:
+                    results.append((q1, c1))
             body_res = self.exec_block(st.body, q)
         for (r, ctrl) in body_res:
             if ctrl is None or ctrl[0] == "continue":
